@@ -19,7 +19,7 @@ pub fn def() -> CheckDef {
         run,
         rule: "seeded histories over <= 4 streams of non-zero pattern writes, set_len shrink, set_len grow, removal of other non-zero streams, create + grow, with lengths on either side of 64*k, 4096 and sector boundaries; every written byte is attributable (position-dependent pattern keyed by a per-write nonce, never 0). Oracle: every byte read (through the growing handle, a fresh handle, the full dump after every step, and after reopen) equals the last write to that stream position or zero. Non-trivial: >= 1 successful set_len that grows a stream; distinct = distinct (seam log, final image) hash.",
         assumptions: &["reference model as C01"],
-        cpu_limit_s: 30,
+        cpu_limit_s: 300,
         fault_kinds: "every fourth case: F-SR / F-SW / F-EI chunking faults (rate-based); otherwise none (space-reuse histories)",
         count_subruns: false,
         expect_probes: &[],
